@@ -166,7 +166,7 @@ func c01TagFamily(c *fw.Ctx, visit func(idx int, h *scen.History)) {
 	for _, tagThr := range []int{1, 2} {
 		for _, tagger := range []string{"k1", "k4"} {
 			for _, pusher := range []string{"k1", "k4"} {
-				for _, approve1 := range []bool{false, true} {
+				for _, approve1 := range []string{"", "exact", "other-commit", "other-from"} {
 					for _, again := range []int{0, 1, 2} { // 0 no, 1 re-record, 2 re-record with approval
 						for _, pusher2 := range []string{"k1", "k2"} {
 							if again == 0 && pusher2 != "k1" {
@@ -180,8 +180,14 @@ func c01TagFamily(c *fw.Ctx, visit func(idx int, h *scen.History)) {
 							p := sh.build()
 							h := &scen.History{Events: []scen.Event{{Kind: "policy", Policy: &p, Signer: "root"}}}
 							h.Events = append(h.Events, scen.Event{Kind: "push", Ref: refMain, Signer: "k1", Content: "a"})
-							if approve1 {
+							h.Events = append(h.Events, scen.Event{Kind: "push", Ref: refMain, Signer: "k1", Content: "b"})
+							switch approve1 {
+							case "exact":
 								h.Events = append(h.Events, scen.Event{Kind: "approve", Ref: refTag, FromPush: -1, TagOn: 2, Approvers: []string{"k2"}, Signer: "k2"})
+							case "other-commit": // approval of tagging the neighbouring commit
+								h.Events = append(h.Events, scen.Event{Kind: "approve", Ref: refTag, FromPush: -1, TagOn: 3, Approvers: []string{"k2"}, Signer: "k2"})
+							case "other-from": // approval of moving the tag from another state
+								h.Events = append(h.Events, scen.Event{Kind: "approve", Ref: refTag, FromPush: 2, TagOn: 2, Approvers: []string{"k2"}, Signer: "k2"})
 							}
 							h.Events = append(h.Events, scen.Event{Kind: "tag", Ref: refTag, OnPush: 1, TagSigner: tagger, Signer: pusher})
 							first := len(h.Events) - 1
